@@ -16,6 +16,8 @@ import MW.Lemmas.KsRestore
 import MW.Gen.Keystore
 import MW.Model.Ledger
 import MW.Spec.Chain
+import MW.Lemmas.LedgerFUEx
+import MW.Drv.Led
 namespace MW.Props.C12
 open MW MW.Model.Keystore MW.Spec.Keystore
 open MW.Lemmas.KsMgr MW.Lemmas.KsIssue MW.Lemmas.KsAbs MW.Lemmas.KsRestore
@@ -337,16 +339,151 @@ example : (runW pathCurve.toScheme 2 w0 [.issue, .issue, .issue]).2 = [.ok [0, 0
 section
 open MW.Model.Ledger
 
-/-- USED FLAG, full statement (NOT proved here): after any history of notifications the listed flag of
-    every issued address equals `Spec.Chain.addrUsed` of the chain the wallet was told about. It needs
-    the ledger refinement theorem of C01 (model ⊨ fold-over-the-chain), which is not available; the
-    statement is tied to the code by three-way differential execution (op `glist`). -/
-def used_flag_iff_full : Prop :=
+/-- USED FLAG, the statement of the earlier rounds (kept for the record; FALSE as it stands, see
+    `used_flag_iff_full_unhyp_false`). Two things are wrong with it: (i) it has none of C01's hypotheses – nothing
+    ties the store `s` to the chain, the owner of `a` to `w`, the notified blocks to the block files; (ii) even under
+    all of them it reads the flag off the STANDARD-form record alone, while GetAddresses (and `Drv.Led.addrFlag`)
+    list the standard-form entry as used when the standard-form OR the staking-form record is positive: an address
+    paid in staking form only keeps the standard-form record 0 although `Spec.Chain.addrUsed` is true. -/
+def used_flag_iff_full_unhyp : Prop :=
   ∀ (c : Ctx) (s : Store) (v : Vol) (hist : List Block) (w : Wid) (a : Model.Ledger.Addr),
     AMap.get s.addrs (w, false, a) = some 0 →
     let s' := hist.foldl (fun sv b => let r := processBlock c sv.1 sv.2 b; (r.1, r.2.1)) (s, v)
     ((AMap.get s'.1.addrs (w, false, a)).map (fun h => decide (h > 0))) =
       some (Spec.Chain.addrUsed (c.node.chain.take (s'.1.syncedTo + 1)) a)
+
+/-- the counterexample (ii): a fresh wallet whose listed address "a1" is paid by the coinbase of block s1 in
+    STAKING form. Every C01 hypothesis holds (`cxKInv`); after the notification the standard-form record is still 0,
+    the staking-form record is 1, the chain pays "a1". -/
+def cxB1 : Block := ⟨"s1", "G", 1, [⟨"k1", true, [⟨"", 0, 0⟩], [⟨"a1", 50, .stk 5⟩]⟩]⟩
+def cxCtx : Ctx :=
+  ⟨{ cbMaturity := 1 }, Lemmas.Ledger.exOwn, ["w1"],
+   { chain := [Lemmas.Ledger.hxG, cxB1], known := [("G", Lemmas.Ledger.hxG), ("s1", cxB1)] }⟩
+def cxS : Store := { Lemmas.Ledger.obS0 with addrs := [(("w1", false, "a1"), 0)] }
+
+theorem used_flag_iff_full_unhyp_false : ¬ used_flag_iff_full_unhyp := by
+  intro h
+  have := h cxCtx cxS { best := ⟨0, "G"⟩ } [cxB1] "w1" "a1" rfl
+  revert this
+  decide
+
+/-- the listed used flag of the standard-form entry of an address (wallet.go GetAddresses): its own first-use
+    record or the staking-form record of the same script hash is positive (absent records count as 0) -/
+def listedUsed (s : Store) (w : Wid) (a : Model.Ledger.Addr) : Bool :=
+  decide (0 < (AMap.get s.addrs (w, false, a)).getD 0 ∨ 0 < (AMap.get s.addrs (w, true, a)).getD 0)
+
+/-- … it IS what the driver's `glist` / `addrs` observation prints for a listed standard-form entry -/
+theorem addrFlag_std (s : Store) (w : Wid) (a : Model.Ledger.Addr) (h : Nat)
+    (hl : AMap.get s.addrs (w, false, a) = some h) :
+    Drv.Led.addrFlag s w a false = if listedUsed s w a then "1" else "0" := by
+  unfold Drv.Led.addrFlag listedUsed
+  simp only [hl, Option.getD_some]
+  cases hs : AMap.get s.addrs (w, true, a) with
+  | none =>
+    simp only [Option.getD_none, Nat.lt_irrefl, or_false]
+    by_cases h0 : h > 0 <;> simp [h0]
+  | some hs' =>
+    simp only [Option.getD_some]
+    by_cases h0 : h > 0 <;> by_cases h1 : hs' > 0 <;> simp [h0, h1]
+
+open MW.Lemmas.Ledger MW.Lemmas.LedgerFU in
+/-- USED FLAG, FULL STATEMENT, with C01's hypotheses explicit (the shape of the old statement: a FIXED node
+    chain, ANY list of notified blocks – in order, out of order, repeated, stale – fed to the real
+    `processBlock` / `reorg` / `rollback` model). Hypotheses: the block files hold one genesis block `G` whose `prev`
+    is no block's id (`EnvHyp`); the node's chain is well-formed, valid (`ChainValid`), from `G`, made of known
+    blocks (`ChainOK`); the wallet starts in sync with a prefix of it, its address records are first-use heights,
+    every address owner is a ready wallet and there is one (`KInv`: e.g. a fresh wallet, `cxKInv`); the notified
+    blocks are blocks of the block files; `a` is an address of wallet `w` that the genesis block does not pay,
+    listed (issued) at the start. Then after the notifications: the address is STILL LISTED, and its listed flag
+    equals `Spec.Chain.addrUsed` of the chain the wallet follows (the node's chain up to its synced height) –
+    and the ledger invariant of C01 holds for that chain. -/
+theorem used_flag_iff_full (c : Ctx) (G : Block) (s : Store) (v : Vol) (hist : List Block)
+    (E : EnvHyp (envOf c) G) (hN : ChainOK (envOf c) G c.node.chain) (hK : KInv (envOf c) c.node.chain s v)
+    (hk : ∀ b ∈ hist, AMap.get c.node.known b.id = some b)
+    (w : Wid) (a : Model.Ledger.Addr) (ch : Bool) (ho : AMap.get c.own a = some (w, ch))
+    (hG : Spec.Chain.addrUsed [G] a = false) (hl : (AMap.get s.addrs (w, false, a)).isSome = true) :
+    let s' := hist.foldl (fun sv b => let r := processBlock c sv.1 sv.2 b; (r.1, r.2.1)) (s, v)
+    (AMap.get s'.1.addrs (w, false, a)).isSome = true ∧
+    listedUsed s'.1 w a = Spec.Chain.addrUsed (c.node.chain.take (s'.1.syncedTo + 1)) a ∧
+    Inv c s'.1 (c.node.chain.take (s'.1.syncedTo + 1)) := by
+  have h := used_flag_fold E hN s v hist hK hk (a := a) (w := w) (ch := ch) ho hG
+  exact ⟨foldNotify_listed c hist (s, v) _ hl, h.2, h.1⟩
+
+open MW.Lemmas.Ledger MW.Lemmas.LedgerFU in
+/-- USED FLAG over the histories of C01 (`used_flag_iff`): node events (extend, reorganise to any branch), handler
+    steps and NewAddress calls in any order – NewAddress adds the address to the keystore view and writes its
+    record (class, address) ↦ 0 (`walletNewAddress_eq`) –, under the hypotheses `RunHypI` of
+    `MW.Props.C01.ledger_correct_issue` (every node chain well-formed and `ChainValid`, every address owner ready
+    (`AllReady`), an address is paid by no block the node has had on its best chain before it was issued (`paid`),
+    a reorganisation announces a block). Once no notification is pending, every address issued along the way that
+    the keystore view still gives to its wallet is LISTED in the class it was issued in, its listed flag is
+    `Spec.Chain.addrUsed` of the node's best chain, and its staking-form record is positive iff a block above the
+    genesis pays it in staking form. -/
+theorem used_flag_iff (e : Env) (G : Block) (x0 : WorldI) (evs : List EvL)
+    (H : RunHypI e G x0 (evs.map EvL.toI))
+    (h0 : Inv ({ e with own := x0.own }.ctx x0.w.chain) x0.w.s x0.w.chain)
+    (hA0 : AddrInv ({ e with own := x0.own }.ctx x0.w.chain) x0.w.s x0.w.chain)
+    (hv0 : x0.w.v.best = tipMeta x0.w.chain) (hq0 : x0.w.queue = [])
+    (hq : (runL e x0 evs).w.queue = [])
+    (a : Model.Ledger.Addr) (w : Wid) (ch stk : Bool) (hi : EvL.issue a w ch stk ∈ evs)
+    (ho : AMap.get (runL e x0 evs).own a = some (w, ch)) :
+    (AMap.get (runL e x0 evs).w.s.addrs (w, stk, a)).isSome = true ∧
+    listedUsed (runL e x0 evs).w.s w a = Spec.Chain.addrUsed (runL e x0 evs).w.chain a ∧
+    (decide (0 < (AMap.get (runL e x0 evs).w.s.addrs (w, true, a)).getD 0) =
+        ((runL e x0 evs).w.chain.drop 1).any (paysKey true a)) :=
+  used_flag_listed e G x0 evs H h0 hA0 hv0 hq0 hq hi ho
+
+open MW.Lemmas.LedgerFU in
+/-- AN ISSUED ADDRESS STAYS LISTED (no hypothesis): no notification – connecting, reorganising, stale or failing –
+    removes an address record (the D5 repair as a theorem about the whole follower step) -/
+theorem listed_stays (c : Ctx) (s : Store) (v : Vol) (b : Block) (k : Wid × Bool × Model.Ledger.Addr)
+    (h : (AMap.get s.addrs k).isSome = true) : (AMap.get (processBlock c s v b).1.addrs k).isSome = true :=
+  processBlock_listed c s v b k h
+
+open MW.Lemmas.Ledger MW.Lemmas.LedgerFU in
+/-- non-vacuity of `used_flag_iff_full`: the counterexample store meets every hypothesis (its records are first-use
+    heights of the genesis chain), and so does the fresh wallet of C01's worked example (`hxKInv`) -/
+theorem cxKInv : KInv (envOf cxCtx) cxCtx.node.chain cxS { best := ⟨0, "G"⟩ } :=
+  ⟨by decide, (inv_ctx_irrel (c := obCtx) (c' := cxCtx) rfl rfl rfl).1
+      ⟨⟨obInv0.agree.unspent, obInv0.agree.credits, obInv0.agree.debits, obInv0.agree.game, obInv0.agree.txrecs,
+        obInv0.agree.blocks⟩, obInv0.bal, obInv0.sync, obInv0.syncedTo⟩,
+    addrInv_genesis (G := hxG) (fun k => by
+      show (AMap.get [(("w1", false, "a1"), 0)] k).getD 0 = 0
+      rw [AMap.get_cons]; split <;> simp [AMap.get_nil]),
+    rfl,
+    by show AllReady exOwn (readyWallets obS0 obCtx.wallets); rw [obReady]; exact obAllReady,
+    by show (readyWallets obS0 obCtx.wallets).isEmpty = false; rw [obReady]; rfl⟩
+
+open MW.Lemmas.Ledger MW.Lemmas.LedgerFU in
+example : EnvHyp (envOf cxCtx) hxG ∧ ChainOK (envOf cxCtx) hxG cxCtx.node.chain := by
+  have hk : ∀ {id : BlkId} {x : Block}, AMap.get (envOf cxCtx).known id = some x → x = hxG ∨ x = cxB1 := by
+    intro id x h
+    simp only [envOf, cxCtx, AMap.get_cons, AMap.get_nil] at h
+    repeat' split at h
+    all_goals first | (cases h; simp; done) | cases h
+  refine ⟨⟨?_, ?_⟩, ⟨⟨?_, ?_, by simp [cxCtx]⟩, by show ChainValid exOwn _; decide, rfl, ?_⟩⟩
+  · intro id x h h0
+    rcases hk h with rfl | rfl
+    · rfl
+    · cases h0
+  · intro id x h
+    rcases hk h with rfl | rfl <;> decide
+  · intro i x h
+    match i with
+    | 0 => simp [cxCtx] at h; rw [← h]; rfl
+    | 1 => simp [cxCtx] at h; rw [← h]; rfl
+    | n + 2 => simp [cxCtx] at h
+  · intro i x y hx hy
+    match i with
+    | 0 => simp [cxCtx] at hx hy; rw [← hx, ← hy]; rfl
+    | n + 1 => simp [cxCtx] at hy
+  · intro x hx
+    simp only [cxCtx, List.mem_cons, List.not_mem_nil, or_false] at hx
+    rcases hx with rfl | rfl <;> rfl
+
+/-- … and on it the listed flag (standard OR staking record) is right where the old reading was wrong -/
+example : listedUsed (processBlock cxCtx cxS { best := ⟨0, "G"⟩ } cxB1).1 "w1" "a1" = true ∧
+    Spec.Chain.addrUsed cxCtx.node.chain "a1" = true := by decide
 
 /-- USED FLAG, partial (1): the rollback step that touches address records never removes one — an issued
     address stays listed when its first payment is reorganised away (the D5 repair) — and resets the
